@@ -228,6 +228,54 @@ func c17Case(run *evid.Run, i int) {
 			}
 		}
 	}
+	// a refused append whose entry is byte-identical to one another handle on the same store appended
+	// successfully (same writer, same heads, same payload): nothing that is stored may be lost through it
+	if i%3 == 1 && failAt < 0 {
+		for r, l := range x.Logs {
+			if l.Len() == 0 {
+				continue
+			}
+			mkh := func(deny bool) *ipfslog.IPFSLog {
+				lo := x.W.LogOpts(x.W.LogID)
+				lo.Entries = l.GetEntries()
+				lo.Heads = l.Heads().Slice()
+				if deny {
+					lo.AccessController = &policy{name: "deny-all", denyPay: func([]byte) bool { return true }}
+				} else {
+					lo.AccessController = nil
+				}
+				nl, err := ipfslog.NewLog(st.API(), x.W.Idents[x.Writer[r]], lo)
+				if err != nil {
+					panic(err)
+				}
+				return nl
+			}
+			writable, refusing := mkh(false), mkh(true)
+			mu.Lock()
+			cur = fmt.Sprintf("refused duplicate append on a second handle of r%d", r)
+			mu.Unlock()
+			p := []byte(fmt.Sprintf("%d.%d/dup%d", h.Seed, h.Idx, r))
+			e1, err := writable.Append(x.W.Ctx, p, nil)
+			if err != nil {
+				continue
+			}
+			state1 := hx.Observe(writable)
+			if _, err := refusing.Append(x.W.Ctx, p, nil); err == nil {
+				run.Violate("C17/denied-append-accepted", det(), wit(cur), "deny-all handle accepted an append")
+			}
+			run.Count("refused_duplicate_appends", 1)
+			if !st.Has(e1.GetHash()) {
+				run.Violate("C17/block-lost", det("codec", codec), wit(cur), "the block of an entry whose Append had returned is gone from the store after another handle was refused the identical entry")
+			}
+			if _, err := writable.Append(x.W.Ctx, append(p, '2'), nil); err != nil {
+				run.Violate("C17/append-error", det("codec", codec), wit(cur), "append after the refused duplicate failed: %v", err)
+			}
+			if codec != "pb" {
+				pubs = append(pubs, &published{Prefix: st.NBlocks(), Kind: "entry-hash", Hash: e1.GetHash(), State: state1, Where: cur, Ident: x.Writer[r]})
+			}
+			break
+		}
+	}
 	W := st.NBlocks()
 	run.Count("block_writes", W)
 	run.Count("publications", len(pubs))
